@@ -121,7 +121,8 @@ impl<'a, R: Read> Lexer<Scanner<'a, R>> {
                         Ok(char) => {
                             // If using CRLF, normalize to LF
                             if last_char == b'\r' && char == b'\n' {
-                                self.scanner.read()?;
+                                // The line feed can be the last character of the input
+                                self.scanner.advance()?;
                             }
 
                             Ok(&self.cur)
